@@ -10,11 +10,29 @@ Open Scope Qc_scope.
 Definition tol_of (tole toli : Qc) (g : group) : Qc :=
   match g with GInter | GShapes => toli | _ => tole end.
 
+(* The property constrains the SYSTEM of equations, not the names the code gives them nor the order in
+   which it emits them (names matter to the code only as look-up keys between its own passes): the
+   implementation's dump is compared with the model's as a multiset, names ignored.  Greedy matching:
+   every model equation removes the first dumped equation equal to it (up to the group's tolerance). *)
+Definition eqn_close_nn (tol : Qc) (a b : eqn) : bool :=
+  group_eqb (egroup a) (egroup b) &&
+  expr_close tol (elhs a) (elhs b) && cmp_eqb (ecmp a) (ecmp b) &&
+  expr_close tol (erhs a) (erhs b) && Bool.eqb (ehard a) (ehard b).
+
+Fixpoint remove_first (p : eqn -> bool) (l : list eqn) : option (list eqn) :=
+  match l with
+  | [] => None
+  | y :: l' => if p y then Some l'
+               else match remove_first p l' with Some r => Some (y :: r) | None => None end
+  end.
+
 Fixpoint eqns_close (tole toli : Qc) (a b : list eqn) : bool :=
-  match a, b with
-  | [], [] => true
-  | x :: a', y :: b' => eqn_close (tol_of tole toli (egroup x)) x y && eqns_close tole toli a' b'
-  | _, _ => false
+  match a with
+  | [] => match b with [] => true | _ => false end
+  | x :: a' => match remove_first (eqn_close_nn (tol_of tole toli (egroup x)) x) b with
+               | Some b' => eqns_close tole toli a' b'
+               | None => false
+               end
   end.
 
 Definition box_eqb (a b : box) : bool :=
